@@ -204,6 +204,8 @@ def _f_end(templated):
         "assert implies(buf_arg == 'shadow' and not attrs['value'], fref(arg_c_decl[d0], ast.typemap.f_c_type, "
         "asstr(intent0 or ast.metaattrs['intent']).upper(), fmt.F_C_var))",
         "assert implies(buf_arg == 'shadow', nupd == 1 and upd_ == (ast.typemap.f_c_module or ast.typemap.f_module))",
+        # C05: the capsule type a class argument imports into the interface is defined by the module that holds the interface
+        "assert implies(buf_arg == 'shadow', 'capsule_data_helper' in fileinfo.f_helper and fileinfo.f_helper['capsule_data_helper'])",
     ]
     for k in META:
         d = KINDS[k]
@@ -221,7 +223,8 @@ def make_interface(templated):
     u = Unit(
         prop="C04", name="Wrapf.build_arg_list_interface[%s]" % ("template argument" if templated else "plain"),
         target="shroud/wrapf.py::Wrapf.build_arg_list_interface",
-        params={"self": ("obj", "Wrapf", {}), "node": ("obj", "Node", {"declgen": "str"}), "fileinfo": "opaque",
+        params={"self": ("obj", "Wrapf", {}), "node": ("obj", "Node", {"declgen": "str"}),
+                "fileinfo": ("obj", "ModuleInfo", {"f_helper": "dict[bool]"}),
                 "fmt": FMT_F, "ast": ast_f(templated),
                 "intent_blk": ("obj", "Scope0", {"f_arg_decl": "list[str]", "f_module": "py", "f_module_line": "py"}),
                 "buf_args": "list[str]", "modules": "opaque", "imports": "dict[bool]",
